@@ -7,6 +7,7 @@ import (
 	"go/token"
 	"go/types"
 	"sort"
+	"strings"
 
 	"golang.org/x/tools/go/cfg"
 )
@@ -281,11 +282,29 @@ func c15R3(c *Ctx, r *Report) {
 	run := c.LookupFn(pkgPipe, "(*Pipeline).Run")
 	parse := c.LookupFn(pkgPipe, "(*Pipeline).parseModule")
 	wg := c.fieldObj(pkgPipe, "Pipeline", "wg")
-	seen := c.fieldObj(pkgPipe, "Pipeline", "seen")
-	if !r.Anchor(rule, pm != nil && run != nil && parse != nil && wg != nil && seen != nil, "pipeline.Pipeline.{processModule,Run,parseModule,wg,seen}") {
+	if !r.Anchor(rule, pm != nil && run != nil && parse != nil && wg != nil, "pipeline.Pipeline.{processModule,Run,parseModule,wg}") {
 		return
 	}
 	info := pm.Info()
+	// the once-only set: whichever sync.Map field of the pipeline processModule test-and-sets
+	var seen *types.Var
+	ast.Inspect(pm.Decl.Body, func(n ast.Node) bool {
+		if call, ok := n.(*ast.CallExpr); ok {
+			if sel, ok := ast.Unparen(call.Fun).(*ast.SelectorExpr); ok && sel.Sel.Name == "LoadOrStore" {
+				if f := callee(info, call); f != nil && f.Pkg() != nil && f.Pkg().Path() == "sync" {
+					if fv := fieldOf(info, sel.X); fv != nil && seen == nil {
+						seen = fv
+					}
+				}
+			}
+		}
+		return true
+	})
+	if seen == nil {
+		r.Fail(rule, pm.Name(), "go statement only on the not-yet-seen branch of seen.LoadOrStore", c.pos(pm.Decl.Pos()),
+			"processModule no longer decides \"first time this module is requested\" with one atomic sync.Map.LoadOrStore: with a separate look-up and insert (even if each is locked) two importers of the same module can both see it as new, the module is parsed twice and the compile fails or differs from run to run")
+		return
+	}
 	isSyncCall := func(n ast.Node, field *types.Var, name string) bool {
 		call, ok := n.(*ast.CallExpr)
 		if !ok {
@@ -504,8 +523,12 @@ func c15R4(c *Ctx, r *Report) {
 		muField := c.fieldObj(pkgCtx, "Module", "Mu")
 		g := c.CFG(set)
 		hits := mustFlow(g, FlowSpec{
-			Gate: func(n ast.Node) bool { return shallowHas(n, func(x ast.Node) bool { return isMutexCall(info, x, muField, "Lock") }) },
-			Kill: func(n ast.Node) bool { return shallowHas(n, func(x ast.Node) bool { return isMutexCall(info, x, muField, "Unlock") }) },
+			Gate: func(n ast.Node) bool {
+				return shallowHas(n, func(x ast.Node) bool { return isMutexCall(info, x, muField, "Lock") })
+			},
+			Kill: func(n ast.Node) bool {
+				return shallowHas(n, func(x ast.Node) bool { return isMutexCall(info, x, muField, "Unlock") })
+			},
 			Target: func(n ast.Node) bool {
 				as, ok := n.(*ast.AssignStmt)
 				if !ok {
@@ -636,6 +659,40 @@ func c15R5(c *Ctx, r *Report) {
 		return true
 	})
 	r.Floor(rule, n, 4, "map ranges in ComputeTopologicalOrder")
+	// the dependency-ordered slice is not reordered by an unstable sort before it is stored
+	info0 := fn.Info()
+	var orderVar types.Object
+	ast.Inspect(fn.Decl.Body, func(nd ast.Node) bool {
+		if as, ok := nd.(*ast.AssignStmt); ok && len(as.Lhs) == 1 && len(as.Rhs) == 1 && fieldOf(info0, as.Lhs[0]) == sorted {
+			orderVar = objOf(info0, as.Rhs[0])
+		}
+		return true
+	})
+	if r.Anchor(rule, orderVar != nil, "ComputeTopologicalOrder: sortedModules = <local>") {
+		reorder := ""
+		for _, cl := range callsIn(fn.Decl.Body, true) {
+			uses := false
+			for _, a := range cl.Args {
+				if mentionsVar(info0, a, orderVar) {
+					uses = true
+				}
+			}
+			if !uses {
+				continue
+			}
+			f := callee(info0, cl)
+			if f == nil || f.Pkg() == nil {
+				continue // builtins (append, len)
+			}
+			if f.Pkg().Path() == "sort" || f.Pkg().Path() == "slices" {
+				if !strings.Contains(f.Name(), "Stable") {
+					reorder = f.Pkg().Name() + "." + f.Name()
+				}
+			}
+		}
+		r.Check(reorder == "", rule, fn.Name(), "the dependency order is not re-sorted with an unstable sort", c.pos(fn.Decl.Pos()),
+			"the topologically ordered slice is passed to "+reorder+": elements that compare equal (all project modules) may be permuted — for more than 12 modules pdqsort does — and a module is then processed before a module it imports (its dependency's types are still unknown)")
+	}
 	// sortedModules written only here (and by nothing in the concurrent region)
 	for _, p := range c.Pkgs {
 		info := p.TypesInfo
